@@ -44,7 +44,7 @@ def check_history(case, ctx, partial=False):
     labels = set()
     warm_after_change = False
     if "no-coalesce-value-failure" in ctx.flags:
-        if any("coalesce-absorbed-value-failure" in ref.run(o).labels for o in hist):
+        if any("absorbed-under-cache" in ref.run(o).labels for o in hist):
             ctx.exclude("no-coalesce-value-failure")
             ctx.done(case, False, ["excluded-K6"])
             return
